@@ -247,7 +247,9 @@ def conc_stream(which, klass=0, scen_fn=None, tag="c"):
 def big_stream(prop, mode="big"):
     """Implementation-only streams: `big` = very long strings (up to 9 MiB; sizes around every block capacity
     on the way), `longdoc` = serialised documents with more entries than any pre-sizing or growth threshold
-    of the tables (7 300 ... 70 000 strings).  Property oracles, block audit and the self-consistency sweep,
+    of the tables (7 300 ... 600 000 strings), `many` = hundreds of thousands of strings interned one by one (the
+    16-bit key type filled to capacity, clear / clone / views of a large interner, a limit reached and raised),
+    `hugeeq` = finding strings of 16 MiB and more again (lowered limit, hashers that cannot tell them apart).  Property oracles, block audit and the self-consistency sweep,
     no model comparison (the driver does not replay megabytes)."""
     def run(ctx):
         name = f"seq-{mode}"
@@ -323,12 +325,12 @@ PROPS = {
         "assumptions": ["concurrent interner: one-thread semantics here; schedules are C03/C05"],
     },
     "C02": {
-        "streams": [seq_stream("core", "C02"), seq_stream("growth", "C02"), conc_stream("C02"), stress_stream("C03")],
+        "streams": [seq_stream("core", "C02"), seq_stream("growth", "C02"), conc_stream("C02"), stress_stream("C03"), big_stream("C02", "many"), big_stream("C02", "hugeeq")],
         "trusted_base": SEQ_TRUST,
         "assumptions": ["concurrent interner: one-thread semantics here; the re-check under the shard lock is C03"],
     },
     "C07": {
-        "streams": [seq_stream("exhaust", "C07"), seq_stream("mem", "C07"), conc_stream("C07"), stress_stream("C03")],
+        "streams": [seq_stream("exhaust", "C07"), seq_stream("mem", "C07"), conc_stream("C07"), stress_stream("C03"), big_stream("C07", "many")],
         "trusted_base": SEQ_TRUST + ["Rodeo: a failing call returns no new state in the model; that the code mutated nothing is checked by the post-failure sweeps of the correspondence run"],
         "assumptions": [],
     },
@@ -338,12 +340,12 @@ PROPS = {
         "assumptions": [],
     },
     "C10": {
-        "streams": [seq_stream("iter", "C10"), seq_stream("core", "C10"), stress_stream("C03")],
+        "streams": [seq_stream("iter", "C10"), seq_stream("core", "C10"), stress_stream("C03"), big_stream("C10", "many")],
         "trusted_base": SEQ_TRUST + ["std's slice::Iter / Enumerate (modelled as a list state machine)"],
         "assumptions": [],
     },
     "C13": {
-        "streams": [seq_stream("clear", "C13")],
+        "streams": [seq_stream("clear", "C13"), big_stream("C13", "many")],
         "trusted_base": SEQ_TRUST,
         "assumptions": [],
     },
@@ -358,7 +360,7 @@ PROPS = {
         "assumptions": ["use of freed memory by safe user code is C20; concurrent regions are C05"],
     },
     "C06": {
-        "streams": [seq_stream("views", "C06")],
+        "streams": [seq_stream("views", "C06"), big_stream("C06", "many"), big_stream("C06", "hugeeq")],
         "trusted_base": SEQ_TRUST + ["absence of interior mutability in the real views is not a theorem (C20 receivers + harness)"],
         "assumptions": ["concurrently populated interners: quiescent states (C03)"],
     },
@@ -378,7 +380,7 @@ PROPS = {
         "assumptions": [],
     },
     "C14": {
-        "streams": [seq_stream("serde", "C14")],
+        "streams": [seq_stream("serde", "C14"), big_stream("C14", "many"), big_stream("C14", "longdoc")],
         "trusted_base": SEQ_TRUST + ["serde data-model level only: JSON text, escaping and UTF-8 handling are serde_json's (exercised, not modelled)"],
         "assumptions": [],
     },
